@@ -40,6 +40,9 @@ CUT_WAKE = ['18local_wait_for_allI', '16execute_and_wait', '27get_thread_referen
 UNITS['wk'] = dict(wrapper='w_wake.cpp', mode='lcs', unroll=1, cxxflags=CXX, exceptions=True, prune=True, cut=CUT_WAKE,
                    devirt=['sleep_node', '11resume_node6notifyEv'], pure=['27get_waiting_threads_monitor'],
                    threads={'vp_thr_idle': [''], 'vp_thr_res': ['']})
+# quick variant: the monitor is a contract stub at prepare_wait / commit_wait / cancel_wait / notify(pred) (C02 checks the real one), everything above it is real:
+# concurrent_monitor::wait loop + the real wake-up predicate on T's side, resume -> advertise_new_work<wakeup> -> request_workers on R's side
+UNITS['wq'] = dict(UNITS['wk'], cut=CUT_WAKE + ['12prepare_waitERNS1_9wait_node', '11commit_waitERNS1_9wait_node', '11cancel_waitERNS1_9wait_node', 'market_contextEE6notifyIZ'])
 COMMON = dict(harness='h_susp.c', timeout=900, native_cflags=['-fno-sanitize=null,pointer-overflow'])
 WORLD = ('World: 1 arena, OS threads T (slot 0, default dispatcher D0 = stack 0) and W (slot 1, Dw = stack 2), one coroutine dispatcher D1 (stack 1) '
          'built as create_coroutine does and parked in the arena\'s real co-cache. Model threads are stacks; the only stub on the switch path is '
@@ -54,6 +57,19 @@ def bnd(**kw):
     b = {'os_threads': 2, 'suspend_points': 3, 'suspensions_of_the_task': 1, 'free_rounds': 1, 'forced_rounds': '1 settle + 1 probe', 'spin_unroll': 1, 'memory_model': 'SC'}
     b.update(kw); return b
 HARNESSES = [
+  dict(name='wake_leg', unit='wq', harness='h_wake.c', defines={'ROUNDS': 2, 'SETTLE': 2, 'MONSTUB': 1},
+       scenarios=[{'NW': 0, 'PRESET': 0}, {'NW': 0, 'PRESET': 1}, {'NW': 1, 'PRESET': 0}, {'NW': 1, 'PRESET': 1}], timeout=900,
+       cbmc=['--unwind', '16', '--object-bits', '12'], native_cflags=['-fno-sanitize=null,pointer-overflow'],
+       desc='Wake-up leg of resume() for an arena whose only thread has suspended and idles: NW 0 = no worker slots (all reserved: task_arena(1), task_arena(n,n), my_max_num_workers == 0), '
+            'NW 1 = one (empty) worker slot; PRESET = pool-state flag initially SET / UNSET. T = idle-loop body of receive_or_steal_task<coroutine_waiter> (self-recall poll, resume-stream scan, '
+            'real coroutine_waiter::pause: arena::out_of_work, sleep_waiter::sleep -> the real concurrent_monitor::wait loop with the real wake-up predicate), racing into park or already parked '
+            '|| R = foreign thread, real chain r1::resume -> task_stream::push -> advertise_new_work<wakeup> (fence, atomic_flag::test_and_set) -> arena::request_workers(mandatory_delta, workers_delta, '
+            'wakeup_threads=true) -> adjust_demand + get_waiting_threads_monitor().notify(pred). Stub boundary below request_workers: monitor prepare_wait/commit_wait/cancel_wait/notify(pred) as a contract '
+            'stub (records wakes, evaluates the captured arena against the sleeper\'s context), adjust_demand records deltas. Oracle: after resume() returned, T parked in the monitor with the resume stream '
+            'non-empty and no wake issued after the push = lost resume; generic blocked-state oracle; T obtains the resume task exactly once; demand at quiescence matches the flag (SET: max workers). '
+            'Witnesses: T really parked and was woken by a wake issued after the push / T never parked. Every schedule with 2 free slices per thread (T first) + 2 forced rounds + probe.',
+       bounds={'model_threads': 2, 'free_rounds': 2, 'forced_rounds': '2 settle + 1 probe', 'unroll': 1, 'worker_slots': '0 and 1', 'memory_model': 'SC',
+               'cut': 'monitor below wait()/request_workers (contract stub), back-off = expired, task_stream lane = one-step push/pop around the real population-bit update'}),
   dict(name='wakeup', unit='wk', harness='h_wake.c', defines={'ROUNDS': 1, 'SETTLE': 1}, scenarios=[{'PRESET': 0}, {'PRESET': 1}], timeout=3600, tiers=['thorough'],
        cbmc=['--unwind', '16', '--object-bits', '12'], native_cflags=['-fno-sanitize=null,pointer-overflow'],
        desc='Idle wait of the suspended task\'s own thread vs publication of its resume task in an arena of size 1 (one slot, no workers: only T can take the task). '
@@ -116,6 +132,7 @@ OUTSIDE = [
   'user errors: resume called twice for one suspend point, or never',
 ]
 STUBS = [
+  'wake_leg unit: concurrent_monitor_base<market_context>::prepare_wait/commit_wait/cancel_wait/notify(pred) = contract stub (a matching notify removes a registered node; commit_wait of a removed node returns false, otherwise sleeps until removed); the real monitor is in `wakeup` (thorough) and C02',
   'wakeup unit: futex(2) kernel contract (futex_stub.h, copied from C02); task_stream::try_push/try_pop = one-step lane operations around the real population-bit updates; stealing_loop_backoff::pause = true (back-off expired); timed_spin_wait_until = one poll; threading_control::adjust_demand accumulates; get_waiting_threads_monitor returns the real monitor object',
   'swapcontext(from,to): saves the calling stack and parks it, marks the target runnable; asserts the target is not executing (the only stub on the switch path)',
   'r1::create_coroutine(coroutine_type&, size, arg) [mmap+makecontext]: records the entry argument; coroutine starts in co_local_wait_for_all(arg) when first switched to; current_coroutine [getcontext]: no-op',
